@@ -36,12 +36,45 @@ def n1(rep, F):
                             "%s converts text to f64 with str::parse outside swift_utils::parse_amount: NaN, inf, "
                             "exponents and signs are accepted as an amount here" % b["path"], b["file"], n.get("ln")))
             continue
-        if not _shape_guard_before(b, n):
+        guard = _shape_guard_before(b, n)
+        if not guard:
+            # the same fact read from the accept condition: Ok is returned only when every character of the
+            # input passed a digit-or-separator test (however the test is spelled)
+            guard = _accept_implies_digits(rep, F, b)
+        if guard is None:
+            rep.notes.append("N1: the accept condition of parse_amount contains terms the extractor cannot "
+                             "resolve; the shape guard is undecided")
+            continue
+        if not guard:
             rep.add(Finding("N1", b["path"], "no-shape-guard",
                             "parse_amount hands the text to str::parse::<f64> without first restricting it to "
                             "digits and one decimal separator: 'NaN', 'inf', '1e3', '+5', '-5', '.5' are accepted "
                             "as amounts (and NaN serialises to JSON null)", b["file"], n.get("ln")))
     return r
+
+
+def _accept_implies_digits(rep, F, b):
+    """True / False / None (undecided)"""
+    import itertools
+    from . import accept, guards, decide
+    try:
+        f = accept.AcceptExtract(F, b).run_accept()
+    except RecursionError:
+        return None
+    A = sorted(guards.atoms_of(f))
+    digit_atoms = [a for a in A if re.match(r"^ALL\[p0\.chars\(\)\]\(", a) and "IS_ASCII_DIGIT" in a]
+    if not digit_atoms:
+        vocab = accept.reference_vocabulary()
+        return None if any(decide.opaque(a, vocab) for a in A) else False
+    if len(A) > 16:
+        return None
+    for bits in itertools.product([False, True], repeat=len(A)):
+        val = dict(zip(A, bits))
+        if not guards.thresholds_consistent(val):
+            continue
+        if guards.ev(f, val) and not any(val[a] for a in digit_atoms):
+            return False
+    return True
 
 
 def _shape_guard_before(b, site):
